@@ -188,6 +188,11 @@ func (fi *fastImporter) Import(path string) (*types.Package, error) {
 		return p.Types, nil
 	}
 	if bp, ok := fi.basePkg[path]; ok {
+		// a dependency that no module package imported in the baseline load has only a stub
+		// (*types.Package without name/scope): let the caller fall back to a full load
+		if bp.Types == nil || !bp.Types.Complete() || bp.Types.Name() == "" {
+			return nil, fmt.Errorf("fast reload: unknown import %q", path)
+		}
 		return bp.Types, nil
 	}
 	if path == "unsafe" {
